@@ -135,6 +135,17 @@ func main() {
 		}
 	}
 
+	// VERIF_DUMP_SCRIPTS=<dir>: write every scripted history as a replay file (the format bin/replay reads) and stop;
+	// this is how the files under corpus/C05, corpus/C06 are produced
+	if dir := os.Getenv("VERIF_DUMP_SCRIPTS"); dir != "" {
+		for i, sc := range scripted(prop) {
+			b, _ := json.MarshalIndent(map[string]interface{}{"property": prop, "kind": "failing-input", "harness": "c05",
+				"replay": map[string]interface{}{"history": fmt.Sprintf("script-%d", i), "prop": prop, "chain_seed": seed + int64(i),
+					"module_float": sc.float, "params": sc.prm, "ops": sc.ops}}, "", " ")
+			lib.Must(os.WriteFile(fmt.Sprintf("%s/%s-script-%d.json", dir, prop, i), b, 0o644))
+		}
+		return
+	}
 	// scripted histories first: the witnesses of the Coq development replayed on the real application
 	for i, sc := range scripted(prop) {
 		hid := fmt.Sprintf("script-%d", i)
